@@ -312,6 +312,7 @@ def valOfPy : Rt.PyVal → Val
   | .int i => .int i
   | .dec d => .dec d
   | .dt d => .dt d
+  | .bytes b => .bytes b
 
 /-- no literal '%' in the format (a '%' starts a directive) -/
 def NoPercent (ds : List Directive) : Prop := ∀ c, Directive.lit c ∈ ds → c ≠ 37
